@@ -56,6 +56,7 @@ struct Stats {
     uint64_t threads = 0, lib_threads = 0, arena_allocs = 0, arena_live_at_end = 0, arena_peak = 0;
     int max_concurrent = 0;       // max number of simultaneously live client threads
     bool soft_capped = false;
+    uint64_t uaf = 0, uaf_step = 0; const void* uaf_addr = nullptr; int uaf_thread = -1, uaf_kind = 0;   // atomic operations on freed arena memory (first one described)
 };
 
 typedef void (*fatal_fn)(const char* cls, const char* detail);   // called on HANG / DEADLOCK; must not return
@@ -92,6 +93,7 @@ void mark_client(bool on, int client_index = -1);     // the calling thread is a
 void* arena_alloc(size_t size, size_t align);
 void  arena_free(void* p);
 bool  arena_contains(const void* p);
+bool  arena_is_freed(const void* p);   // p lies in a block that was handed out and has been freed (and not handed out again)
 size_t arena_usable(const void* p);
 
 } // namespace dsim
